@@ -7,6 +7,7 @@
 #include <BayesFilters/ExogenousModel.h>
 #include <BayesFilters/GaussianMixture.h>
 #include <BayesFilters/utils.h>
+#include <BayesFilters/GaussianFilter.h>
 
 using namespace bfl;
 using namespace Eigen;
@@ -176,7 +177,8 @@ struct VExo : public ExogenousModel {
 };
 struct VMeas : public LinearMeasurementModel {
     bool freeze(const Data&) override { return true; }
-    std::pair<bool, Data> measure(const Data&) const override { MatrixXd y = y_; return std::make_pair(true, Data(y)); }
+    std::pair<bool, Data> measure(const Data&) const override { MatrixXd y = y_; return std::make_pair(available_, Data(y)); }
+    bool available_ = true;
     std::pair<bool, MatrixXd> getNoiseCovarianceMatrix() const override { return std::make_pair(true, R_); }
     MatrixXd getMeasurementMatrix() const override { return H_; }
     VectorDescription getInputDescription() const override { return VectorDescription(H_.cols(), 0, R_.rows()); }
@@ -188,11 +190,14 @@ struct VMeas : public LinearMeasurementModel {
 // ends with everything switched off again:
 //   kfpv n exo ncalls { hand F Q [G g] nskip {name status}* wmode k means covs outw }*      name: 0 prediction 1 state 2 exogenous
 static std::string kfpv(Toks& t) {
-    long n = t.nat(); bool exo = t.flag();
+    long n = t.nat(); long exo = t.nat();   // 1: exogenous model attached before the KFPrediction is built, 2: afterwards through getStateModel()
+    if (exo < 0 || exo > 2) throw vh::BadArgs("exo");
     VState* vs = new VState(n); VExo* ve = nullptr;
     std::unique_ptr<LinearStateModel> sm(vs);
-    if (exo) { ve = new VExo; ve->G_ = MatrixXd::Zero(n, n); ve->g_ = VectorXd::Zero(n); vs->add_exogenous_model(std::unique_ptr<ExogenousModel>(ve)); }
+    if (exo) { ve = new VExo; ve->G_ = MatrixXd::Zero(n, n); ve->g_ = VectorXd::Zero(n); }
+    if (exo == 1) vs->add_exogenous_model(std::unique_ptr<ExogenousModel>(ve));
     std::unique_ptr<KFPrediction> pp(new KFPrediction(std::move(sm)));
+    if (exo == 2) pp->getStateModel().add_exogenous_model(std::unique_ptr<ExogenousModel>(ve));
     long calls = t.nat();
     Out o; o.s("ok");
     static const char* names[3] = {"prediction", "state", "exogenous"};
@@ -268,6 +273,138 @@ static std::string kfcv(Toks& t) {
     return o.str();
 }
 
+// ---------------------------------------------------------------------------------------------
+// A whole Kalman filter: a real GaussianFilter (KFPrediction + KFCorrection, time-varying models),
+// its filtering_step() exactly the one of test/test_KF/main.cpp, driven through a history.
+//   kfh|kfht n k exo 0 0 0 0 pred0w corr0(means covs w) nsteps { ncmd {name on}* F Q [G g] hasmeas [m H R y] }*
+// exo: 0 none, 1 exogenous model attached to the state model before the KFPrediction is constructed,
+// 2 attached afterwards through prediction().getStateModel().add_exogenous_model().
+// kfh calls filtering_step() directly, kfht runs boot()/run()/wait() (the library's own recursion).
+struct HStepData {
+    std::vector<std::pair<long, bool>> cmds;
+    MatrixXd F, Q, G; VectorXd g;
+    bool hasmeas = false; MatrixXd H, R; VectorXd y;
+};
+
+class HFilter : public GaussianFilter {
+public:
+    HFilter(std::unique_ptr<GaussianPrediction> p, std::unique_ptr<GaussianCorrection> c, const GaussianMixture& pred0, const GaussianMixture& corr0,
+            VState* vs, VExo* ve, VMeas* vm, std::vector<HStepData> steps) :
+        GaussianFilter(std::move(p), std::move(c)), predicted_state_(pred0), corrected_state_(corr0), vs_(vs), ve_(ve), vm_(vm), steps_(std::move(steps)) {}
+    void step_once() { filtering_step(); }
+    void attach_late(std::unique_ptr<ExogenousModel> e) { prediction().getStateModel().add_exogenous_model(std::move(e)); }
+    Out o;
+protected:
+    bool run_condition() override { return done_ < steps_.size(); }
+    bool initialization_step() override { return true; }
+    std::vector<std::string> log_file_names(const std::string&, const std::string&) override { return {}; }
+    void filtering_step() override {
+        static const char* names[5] = {"prediction", "state", "exogenous", "correction", "all"};
+        const HStepData& d = steps_.at(done_);
+        for (auto& c : d.cmds) skip(names[c.first], c.second);
+        vs_->F_ = d.F; vs_->Q_ = d.Q;
+        if (ve_) { ve_->G_ = d.G; ve_->g_ = d.g; }
+        vm_->available_ = d.hasmeas;
+        if (d.hasmeas) { vm_->H_ = d.H; vm_->R_ = d.R; vm_->y_ = d.y; }
+        MatrixXd m0 = corrected_state_.mean(), c0 = corrected_state_.covariance();
+
+        prediction().predict(corrected_state_, predicted_state_);
+        correction().freeze_measurements();
+        correction().correct(predicted_state_, corrected_state_);
+
+        o.s("step"); outGM(o, predicted_state_); outGM(o, corrected_state_);
+        bool valid = false; VectorXd lik;
+        std::tie(valid, lik) = correction().getLikelihood();
+        o.s(valid ? "lik" : "nolik"); if (valid) { o.n(lik.size()); o.m(lik); }
+        ++done_;
+    }
+private:
+    GaussianMixture predicted_state_, corrected_state_;
+    VState* vs_; VExo* ve_; VMeas* vm_;
+    std::vector<HStepData> steps_;
+    std::size_t done_ = 0;
+};
+
+static std::string kfh(Toks& t, bool threaded) {
+    long n = t.nat(), k = t.nat(), exo = t.nat();
+    for (int q = 0; q < 4; ++q) if (t.nat() != 0) throw vh::BadArgs("flags");
+    if (exo < 0 || exo > 2) throw vh::BadArgs("exo");
+    GaussianMixture pred0(k, n), corr0(k, n);
+    pred0.weight() = t.vec(k);
+    pred0.mean().setConstant(12345.0); pred0.covariance().setConstant(-54321.0);
+    fillGM(t, corr0, n, k);
+    corr0.weight() = t.vec(k);
+    long nsteps = t.nat();
+    std::vector<HStepData> steps;
+    for (long s = 0; s < nsteps; ++s) {
+        HStepData d;
+        long ncmd = t.nat();
+        for (long q = 0; q < ncmd; ++q) { long nm = t.nat(); bool on = t.flag(); if (nm < 0 || nm > 4) throw vh::BadArgs("skipname"); d.cmds.push_back({nm, on}); }
+        d.F = t.mat(n, n); d.Q = t.mat(n, n);
+        if (exo) { d.G = t.mat(n, n); d.g = t.vec(n); }
+        d.hasmeas = t.flag();
+        if (d.hasmeas) { long m = t.nat(); d.H = t.mat(m, n); d.R = t.mat(m, m); d.y = t.vec(m); }
+        steps.push_back(d);
+    }
+    t.done();
+    VState* vs = new VState(n); vs->F_ = MatrixXd::Identity(n, n); vs->Q_ = MatrixXd::Identity(n, n);
+    VExo* ve = exo ? new VExo : nullptr;
+    if (ve) { ve->G_ = MatrixXd::Zero(n, n); ve->g_ = VectorXd::Zero(n); }
+    std::unique_ptr<LinearStateModel> sm(vs);
+    if (exo == 1) vs->add_exogenous_model(std::unique_ptr<ExogenousModel>(ve));
+    VMeas* vm = new VMeas; vm->H_ = MatrixXd::Zero(1, n); vm->R_ = MatrixXd::Identity(1, 1); vm->y_ = VectorXd::Zero(1);
+    std::unique_ptr<GaussianPrediction> pp(new KFPrediction(std::move(sm)));
+    std::unique_ptr<GaussianCorrection> cp(new KFCorrection(std::unique_ptr<LinearMeasurementModel>(vm)));
+    HFilter f(std::move(pp), std::move(cp), pred0, corr0, vs, ve, vm, steps);
+    if (exo == 2) f.attach_late(std::unique_ptr<ExogenousModel>(ve));
+    f.o.s("ok");
+    if (!threaded) {
+        for (long s = 0; s < nsteps; ++s) f.step_once();
+    } else {
+        if (!f.boot()) return "boot-failed";
+        f.run();
+        if (!f.wait()) return "wait-failed";
+    }
+    return f.o.str();
+}
+
+// LinearMeasurementModel::predictedMeasure / innovation on a batch (through the base-class interface):
+//   lmm n m k H X c Y  -> "ok" predicted innovation
+// (MeasurementModelDecorator is not part of the library build and its header does not compile.)
+static std::string lmm(Toks& t) {
+    long n = t.nat(), m = t.nat(), k = t.nat();
+    MatrixXd H = t.mat(m, n), X = t.mat(n, k);
+    long c = t.nat();
+    MatrixXd Y = t.mat(m, c + 1);
+    t.done();
+    MatrixXd R = MatrixXd::Identity(m, m);
+    HMeas direct(H, R, VectorXd::Zero(m));
+    MeasurementModel* mm = &direct;
+    bool v1, v2; Data pd, id;
+    std::tie(v1, pd) = mm->predictedMeasure(X);
+    if (!v1) return "predicted-invalid";
+    std::tie(v2, id) = mm->innovation(pd, Data(Y));
+    if (!v2) return "innovation-invalid";
+    Out o; o.s("ok"); o.m(any::any_cast<MatrixXd>(pd)); o.m(any::any_cast<MatrixXd>(id));
+    return o.str();
+}
+
+// LTIMeasurementModel constructor checks:  ltictor hr hc rr rc
+static std::string ltictor(Toks& t) {
+    long hr = t.nat(), hc = t.nat(), rr = t.nat(), rc = t.nat(); t.done();
+    MatrixXd H = MatrixXd::Ones(hr, hc), R = MatrixXd::Identity(rr, rc);
+    try { HMeas mm(H, R, VectorXd::Zero(hr)); (void)mm; }
+    catch (const std::runtime_error& e) {
+        std::string w = e.what();
+        if (w.find("Measurement matrix dimensions cannot be 0") != std::string::npos) return "throw:meas-empty";
+        if (w.find("Noise covariance matrix dimensions cannot be 0") != std::string::npos) return "throw:noise-empty";
+        if (w.find("must be a square matrix") != std::string::npos) return "throw:noise-not-square";
+        if (w.find("must be the same as the size") != std::string::npos) return "throw:rows-mismatch";
+        return "throw:other";
+    }
+    return "ok";
+}
+
 int main() {
     return vh::run([](const std::string& op, Toks& t, std::string& out) {
         if (op == "kfp") { out = kfp(t); return true; }
@@ -276,6 +413,10 @@ int main() {
         if (op == "kfcs") { out = kfcs(t); return true; }
         if (op == "kfpv") { out = kfpv(t); return true; }
         if (op == "kfcv") { out = kfcv(t); return true; }
+        if (op == "kfh") { out = kfh(t, false); return true; }
+        if (op == "kfht") { out = kfh(t, true); return true; }
+        if (op == "lmm") { out = lmm(t); return true; }
+        if (op == "ltictor") { out = ltictor(t); return true; }
         return false;
     });
 }
